@@ -18,7 +18,7 @@ if not os.path.exists(src + '/patch.diff') and os.path.exists('/verif/seeded/%s/
     src = '/verif/seeded/' + tag
 meta = json.load(open(src + '/meta.json'))
 pid = meta['property']
-env = dict(os.environ, GOFLAGS='-mod=mod', GOPROXY='off', GOSUMDB='off', GOTOOLCHAIN='local')
+env = dict(os.environ, GOFLAGS='-mod=mod', GOPROXY='off', GOSUMDB='off', GOTOOLCHAIN='local', VERIF_NO_EVIDENCE='1')
 def run(cmd, cwd=None, timeout=1800):
     p = subprocess.run(cmd, cwd=cwd, env=env, capture_output=True, text=True, timeout=timeout, shell=isinstance(cmd, str))
     return p.returncode, p.stdout + p.stderr
